@@ -312,7 +312,13 @@ func (x *vC18PX) perSet(S []string, orders []string) {
 						}
 					}
 				}
-				f.fail("gaps", x.sig(base, si), "TrieGaps(%v (%s shape), target %q, order %s) = %v, the maximal sub-prefixes of the target disjoint from the set are %v", S, x.shapes[si], target, o, got, exp)
+				sig := x.sig(base, si)
+				if base == "gaps/outside-target" {
+					// one input class whatever the shape: on the pruned shape it only reaches more
+					// inputs (a single key no longer takes TrieGaps' root-leaf shortcut)
+					sig = base
+				}
+				f.fail("gaps", sig, "TrieGaps(%v (%s shape), target %q, order %s) = %v, the maximal sub-prefixes of the target disjoint from the set are %v", S, x.shapes[si], target, o, got, exp)
 				break
 			}
 		}
@@ -514,7 +520,7 @@ func TestVerif_C18_prefixops_history(t *testing.T) {
 			steps := 6 + R.Intn(25)
 			var states []string
 			prunedSome, big := false, false
-			for i := 0; i < steps && !c.Failed(); i++ {
+			for i := 0; i < steps; i++ {
 				switch x := R.Intn(100); {
 				case x < 55:
 					p := randP()
@@ -570,26 +576,26 @@ func TestVerif_C18_prefixops_history(t *testing.T) {
 				big = big || len(S) >= 3
 				states = append(states, strings.Join(S, ","))
 				got := vC18TrieKeys(tr)
-				if !f.check(vC18EqStr(got, S) && tr.Size() == len(S), "model-keys", "history/keys", "after step %d the trie holds %v (Size %d), the set model %v", i, got, tr.Size(), S) {
+				if !f.check(vC18EqStr(got, S) && tr.Size() == len(S), "model-keys", "keys", "after step %d the trie holds %v (Size %d), the set model %v", i, got, tr.Size(), S) {
 					break
 				}
 				cover := vC18Cover(S, L)
 				pat := all[(1<<(L-1))-1+R.Intn(1<<(L-1))] + "0"
 				ord := vC18OrderKey(pat, tail)
 				sorted := vC18SortByOrder(S, pat)
-				f.check(vC18EqStr(vC18BK(AllKeys(tr, ord)), sorted), "iter-order", "history/iter-order", "AllKeys(%v, order %s) = %v, want %v", S, pat, AllKeys(tr, ord), sorted)
-				f.check(KeyspaceCovered(tr) == (cover == full), "covered", "history/covered", "KeyspaceCovered(%v) = %v", S, cover != full)
+				f.check(vC18EqStr(vC18BK(AllKeys(tr, ord)), sorted), "iter-order", "iter-order", "AllKeys(%v, order %s) = %v, want %v", S, pat, AllKeys(tr, ord), sorted)
+				f.check(KeyspaceCovered(tr) == (cover == full), "covered", "covered", "KeyspaceCovered(%v) = %v", S, cover != full)
 				for _, target := range []string{randP(), randP()} {
 					exp := vC18SortByOrder(vC18MaxWithin(target, full&^cover, L), pat)
 					got := vC18BK(TrieGaps(tr, bitstr.Key(target), ord))
 					c.Clause("gaps")
 					if !vC18EqStr(got, exp) {
-						base := "history/gaps/order"
+						base := "gaps/order"
 						if !vC18EqStr(vC18Sorted(got), vC18Sorted(exp)) {
-							base = "history/gaps/wrong-set"
+							base = "gaps/wrong-set"
 							for _, g := range got {
 								if !strings.HasPrefix(g, target) {
-									base = "history/gaps/outside-target"
+									base = "gaps/outside-target"
 								}
 							}
 						}
@@ -606,13 +612,13 @@ func TestVerif_C18_prefixops_history(t *testing.T) {
 						}
 					}
 					gp, gok := FindPrefixOfKey(tr, bitstr.Key(target))
-					f.check(gok == expOK && (!gok || string(gp) == expP), "find-prefix", "history/find-prefix", "FindPrefixOfKey(%v, %q) = (%q,%v), want (%q,%v)", S, target, gp, gok, expP, expOK)
+					f.check(gok == expOK && (!gok || string(gp) == expP), "find-prefix", "find-prefix", "FindPrefixOfKey(%v, %q) = (%q,%v), want (%q,%v)", S, target, gp, gok, expP, expOK)
 					sub, sok := FindSubtrie(tr, bitstr.Key(target))
 					var gsub []string
 					if sok {
 						gsub = vC18TrieKeys(sub)
 					}
-					f.check(sok == (len(under) > 0) && vC18EqStr(gsub, under), "find-subtrie", "history/find-subtrie", "FindSubtrie(%v, %q) = (%v,%v), want %v", S, target, gsub, sok, under)
+					f.check(sok == (len(under) > 0) && vC18EqStr(gsub, under), "find-subtrie", "find-subtrie", "FindSubtrie(%v, %q) = (%v,%v), want %v", S, target, gsub, sok, under)
 					// absent key comparable with no member
 					cmp := target == "" && len(S) > 0
 					for _, s := range S {
@@ -630,14 +636,14 @@ func TestVerif_C18_prefixops_history(t *testing.T) {
 							}
 						}
 						e := NextNonEmptyLeaf(tr, bitstr.Key(target), ord)
-						f.check((e == nil) == (len(sorted) == 0) && (e == nil || string(e.Key) == exp), "next-leaf-absent", "history/next-leaf-absent", "NextNonEmptyLeaf(%v, absent k=%q, order %s) = %s, keys in order %v, want %q", S, target, pat, vC18EntryStr(e), sorted, exp)
+						f.check((e == nil) == (len(sorted) == 0) && (e == nil || string(e.Key) == exp), "next-leaf-absent", "next-leaf-absent", "NextNonEmptyLeaf(%v, absent k=%q, order %s) = %s, keys in order %v, want %q", S, target, pat, vC18EntryStr(e), sorted, exp)
 					}
 				}
 				if len(sorted) > 0 {
 					j := R.Intn(len(sorted))
 					e := NextNonEmptyLeaf(tr, bitstr.Key(sorted[j]), ord)
 					exp := sorted[(j+1)%len(sorted)]
-					f.check(e != nil && string(e.Key) == exp, "next-leaf-member", "history/next-leaf-member", "NextNonEmptyLeaf(%v, k=%q, order %s) = %s, keys in order %v, want %q", S, sorted[j], pat, vC18EntryStr(e), sorted, exp)
+					f.check(e != nil && string(e.Key) == exp, "next-leaf-member", "next-leaf-member", "NextNonEmptyLeaf(%v, k=%q, order %s) = %s, keys in order %v, want %q", S, sorted[j], pat, vC18EntryStr(e), sorted, exp)
 				}
 				// subtraction against a second set (canonical), both directions
 				var P []string
@@ -666,8 +672,8 @@ func TestVerif_C18_prefixops_history(t *testing.T) {
 					}
 					return out
 				}
-				f.check(vC18EqStr(vC18TrieKeys(SubtractTrie(tr, pt)), sub(S, P)), "subtract", "history/subtract", "SubtractTrie(%v, %v) = %v, want %v", S, P, vC18TrieKeys(SubtractTrie(tr, pt)), sub(S, P))
-				f.check(vC18EqStr(vC18TrieKeys(SubtractTrie(pt, tr)), sub(P, S)), "subtract", "history/subtract", "SubtractTrie(%v, %v) = %v, want %v", P, S, vC18TrieKeys(SubtractTrie(pt, tr)), sub(P, S))
+				f.check(vC18EqStr(vC18TrieKeys(SubtractTrie(tr, pt)), sub(S, P)), "subtract", "subtract", "SubtractTrie(%v, %v) = %v, want %v", S, P, vC18TrieKeys(SubtractTrie(tr, pt)), sub(S, P))
+				f.check(vC18EqStr(vC18TrieKeys(SubtractTrie(pt, tr)), sub(P, S)), "subtract", "subtract", "SubtractTrie(%v, %v) = %v, want %v", P, S, vC18TrieKeys(SubtractTrie(pt, tr)), sub(P, S))
 				c.Obs("states_judged", 1)
 			}
 			c.Set("steps", steps)
